@@ -89,7 +89,7 @@ func init() {
 }
 
 var c12Pools = map[string][]string{
-	"s": {"s1", "s2", "s3"}, "h": {"h1", "h2"}, "l": {"l1", "l2"}, "set": {"set1", "set2", "set3"}, "z": {"z1", "z2"}, "hll": {"hll1", "hll2"}, "b": {"b1", "b2"},
+	"s": {"s1", "s2", "s3"}, "h": {"h1", "h2"}, "l": {"l1", "l2"}, "set": {"set1", "set2", "set3"}, "z": {"z1", "z2"}, "hll": {"hll1", "hll2"}, "b": {"b1", "b2", "b3"},
 }
 
 func c12KeyFor(o *zsim.Tape, method string) string {
@@ -205,6 +205,7 @@ func c12Seed(s *zredis.Server) {
 	m.ZAdd("z1", 2, "b")
 	m.ZAdd("z1", 10, "c")
 	m.Set("b1", "\xff\x0f")
+	m.Set("b3", "\xff\xff\xff") // no clear bit at all: BITPOS 0 answers differently with and without an explicit end
 }
 
 // c12Dump is the server's textual dump without the (randomly seeded) HyperLogLog registers; those are compared through PFCOUNT
@@ -295,6 +296,10 @@ func c12Canon(v any) string {
 // replies whose order Redis does not define
 var c12Unordered = map[string]bool{"SMembers": true, "SUnion": true, "SDiff": true, "SInter": true, "HKeys": true, "HVals": true}
 
+// the methods documented to turn a missing key into the zero value without an error; everywhere else redis.Nil
+// reaches the caller as it does with go-redis
+var c12SwallowsNil = map[string]bool{"Get": true, "GetSet": true}
+
 func c12Equal(name string, wvals []any, werr error, rval any, rerr error) (bool, string) {
 	if c12Unordered[name] {
 		if l, ok := rval.([]string); ok {
@@ -319,7 +324,7 @@ func c12Equal(name string, wvals []any, werr error, rval any, rerr error) (bool,
 		if werr == red.Nil {
 			return true, desc
 		}
-		if werr == nil {
+		if werr == nil && c12SwallowsNil[strings.TrimSuffix(name, "Ctx")] {
 			for _, v := range wvals {
 				if !reflect.ValueOf(v).IsZero() {
 					return false, desc
@@ -687,7 +692,8 @@ func c12Adapter(r *zsim.Run, w *Redis, a, b *zredis.Server, ctx context.Context)
 		return check(name, fmt.Sprint(k, a, z, page, size), c12Canon(wv), werr, c12Canon(rp), rerr)
 	case 32:
 		// script cache: load + evalsha on both sides
-		script := "return redis.call('incrby', KEYS[1], ARGV[1])"
+		// (scripts with a number, a value-or-nothing and a null reply)
+		script := zsim.Pick(o, "return redis.call('incrby', KEYS[1], ARGV[1])", "return redis.call('get', KEYS[1])", "if ARGV[1] == '2' then return false end return 1")
 		k := c12KeyFor(o, "Set")
 		wsha, werr := w.ScriptLoad(script)
 		rsha, rerr := cl.ScriptLoad(ctx, script).Result()
